@@ -92,7 +92,7 @@ def _home_names0(info: dict) -> tuple[set[str], set[str]]:
     return {"fun", "attr", "class", "enum"}, {segs[-1]}
 
 
-def attachment_violations(pkg: dict, res: dict) -> tuple[list[dict], dict]:
+def attachment_violations(pkg: dict, res: dict, nc: bool = False) -> tuple[list[dict], dict]:
     table = (pkg.get("meta") or {}).get("tokens") or {}
     viols: list[dict] = []
     stats = {"token_occurrences": 0, "tokens_seen": 0, "comments": 0}
@@ -121,6 +121,15 @@ def attachment_violations(pkg: dict, res: dict) -> tuple[list[dict], dict]:
                 kinds, names = _home_names(info, aliases)
                 d = c["decl"]
                 ok = d is not None and d["kind"] in kinds and (d["python_name"] in names or d["name"] in names)
+                if ok and info["kind"] == "P" and not nc:
+                    # the line that carries a parameter's description names that parameter (checked verbatim without -nc)
+                    for cl in c["text"].split("\n"):
+                        if tok in cl:
+                            m = re.search(r"@param\s+(\S+)", cl)
+                            if m and m.group(1) != info.get("name"):
+                                viols.append({"class": "parameter-description-on-wrong-parameter", "detail": {
+                                    "path": rel, "line": c["line"], "token": tok, "token_belongs_to": info, "found_under": m.group(1),
+                                    "comment_line": cl[:200], "fingerprint": {"gkey": "wrong-param"}}})
                 if not ok:
                     viols.append({"class": "docstring-on-wrong-element", "detail": {
                         "path": rel, "line": c["line"], "token": tok, "token_belongs_to": info, "found_on": d,
@@ -169,7 +178,7 @@ def run_case(case: dict, parallel: int = 1) -> dict:
                                       "detail": dict(m, fingerprint={"gkey": m["kind"] + ":" + m["query"].split("(")[0]})})
     st = dict(comp.get("stats") or {})
     if e_run is not None and e_run["outcome"] == "completed":
-        vs, ast = attachment_violations(case["pkg"], e_run)
+        vs, ast = attachment_violations(case["pkg"], e_run, bool(case["options"].get("nc")))
         for v in vs:
             v["history"] = 1
         verdict["violations"] += vs
